@@ -10,6 +10,7 @@ pub mod c07;
 pub mod c08;
 pub mod c09;
 pub mod c10;
+pub mod c11;
 pub mod c05;
 pub mod c12;
 pub mod c17;
@@ -35,6 +36,7 @@ pub fn registry() -> Vec<PropDef> {
         PropDef { id: c08::ID, run: c08::run, replay: c08::replay },
         PropDef { id: c09::ID, run: c09::run, replay: c09::replay },
         PropDef { id: c10::ID, run: c10::run, replay: c10::replay },
+        PropDef { id: c11::ID, run: c11::run, replay: c11::replay },
         PropDef { id: c12::ID, run: c12::run, replay: c12::replay },
         PropDef { id: c17::ID, run: c17::run, replay: c17::replay },
     ]
